@@ -16,10 +16,15 @@ type hist struct {
 	just      string
 	timeout   string
 	order     string
+	justThenGood bool // an invalid justification is followed by the correct one
 }
 
 func (h hist) String() string {
-	return fmt.Sprintf("n=%d t=%d deals=%s resp=%s just=%s timeout=%s order=%s", h.n, h.t, strings.Join(h.deal, ","), h.respFault, h.just, h.timeout, h.order)
+	sfx := ""
+	if h.justThenGood {
+		sfx = "+thenCorrect"
+	}
+	return fmt.Sprintf("n=%d t=%d deals=%s resp=%s just=%s%s timeout=%s order=%s", h.n, h.t, strings.Join(h.deal, ","), h.respFault, h.just, sfx, h.timeout, h.order)
 }
 
 var dealKinds = []string{"honest", "share+d", "commit+d", "wrongidx", "bigidx", "T=1", "T=n+1", "otherrcpt", "badsig", "dhswap", "truncated", "replay", "none"}
@@ -42,7 +47,7 @@ func gen(tier string, seed int64) []hx.Scenario {
 			for _, rf := range []string{"none", "forged:0", "wrongsid:1", "dup:0", fmt.Sprintf("absent:%d", n-1), "absent:0"} {
 				for _, to := range []string{"none", "before", "after"} {
 					for _, o := range []string{"id", "rev", "rot"} {
-						hs = append(hs, hist{n, t, honest, rf, "correct", to, o})
+						hs = append(hs, hist{n, t, honest, rf, "correct", to, o, false})
 					}
 				}
 			}
@@ -57,7 +62,10 @@ func gen(tier string, seed int64) []hx.Scenario {
 						for _, to := range []string{"none", "after"} {
 							d := append([]string{}, honest...)
 							d[i] = k
-							hs = append(hs, hist{n, t, d, "none", j, to, []string{"id", "rev", "rot"}[(i+len(j))%3]})
+							hs = append(hs, hist{n, t, d, "none", j, to, []string{"id", "rev", "rot"}[(i+len(j))%3], false})
+							if j != "correct" && j != "none" && k == "share+d" {
+								hs = append(hs, hist{n, t, d, "none", j, to, "id", true})
+							}
 						}
 					}
 				}
@@ -76,7 +84,7 @@ func gen(tier string, seed int64) []hx.Scenario {
 									}
 									d := append([]string{}, honest...)
 									d[a], d[b] = ka, kb
-									hs = append(hs, hist{n, t, d, "none", j, []string{"none", "before", "after"}[cnt%3], []string{"id", "rev", "rot"}[cnt%3]})
+									hs = append(hs, hist{n, t, d, "none", j, []string{"none", "before", "after"}[cnt%3], []string{"id", "rev", "rot"}[cnt%3], cnt%4 == 1})
 									cnt++
 								}
 							}
